@@ -35,7 +35,7 @@ def items(tier: str) -> List[Any]:
             out.append(("g2", s))
     gens = [raw.space(4, 2), raw.space(3, 2, multi=True), (s for s in raw.programs(4, 2, multi=True) if "switch" in s or "match" in s)]
     if tier != "quick":
-        gens = [raw.space(4, 2), raw.programs(5, 2, raw.PLAIN_SMALL), raw.space(4, 2, multi=True)]
+        gens = [raw.space(4, 2), raw.space(4, 2, multi=True)]
     for gen in gens:
         for s in gen:
             if tier == "quick" and s.count("\n") > 4 and not ("bz " in s or "bnz " in s):
